@@ -15,7 +15,7 @@ P = "pyModeS.py_common."
 contract("pyModeS.decoder.bds.bds61.emergency_squawk")(ident_spec.emergency_squawk)
 
 
-@harness(("C08", "C13"), inputs={"idb": BinStr(13)}, functions=[P + "squawk"], body_of=[P + "squawk"])
+@harness(("C08", "C13", "C14"), inputs={"idb": BinStr(13)}, functions=[P + "squawk"], body_of=[P + "squawk"])
 def squawk_body(idb):
     assert outcome(PC.squawk, idb) == outcome(CS.squawk, idb), "squawk == octal digits A B C D of the 13-bit ID"
 
@@ -38,17 +38,17 @@ def squawk_roundtrip(a, b, c, d, x):
     assert PC.squawk(idb) == str(a) + str(b) + str(c) + str(d), "the four octal digits are returned as transmitted"
 
 
-@harness("C08", inputs={"idb": BinStr((0, 12, 14))}, functions=[P + "squawk"], body_of=[P + "squawk"])
+@harness(("C08", "C14"), inputs={"idb": BinStr((0, 12, 14))}, functions=[P + "squawk"], body_of=[P + "squawk"])
 def squawk_wrong_length(idb):
     assert outcome(PC.squawk, idb) == ("raise", "RuntimeError"), "squawk rejects strings that are not 13 bits"
 
 
-@harness("C08", inputs={"msg": HexStr((14, 28))}, functions=[P + "idcode"], body_of=[P + "idcode"])
+@harness(("C08", "C14"), inputs={"msg": HexStr((14, 28))}, functions=[P + "idcode"], body_of=[P + "idcode"])
 def idcode_body(msg):
     assert outcome(PC.idcode, msg) == outcome(CS.idcode, msg), "idcode == squawk(bits 20-32) for DF5/21, RuntimeError otherwise"
 
 
-@harness("C08", inputs={"msg": HexStr((14, 28))}, functions=["pyModeS.decoder.surv.identity"],
+@harness(("C08", "C14"), inputs={"msg": HexStr((14, 28))}, functions=["pyModeS.decoder.surv.identity"],
          body_of=["pyModeS.decoder.surv.identity"])
 def surv_identity_body(msg):
     bits = F.hexbits(msg)
@@ -58,7 +58,7 @@ def surv_identity_body(msg):
         assert outcome(SURV.identity, msg) == ("raise", "RuntimeError"), "surv.identity rejects DF != 5"
 
 
-@harness("C08", inputs={"msg": HexStr((14, 28))}, functions=["pyModeS.decoder.surv.fs"],
+@harness(("C08", "C14"), inputs={"msg": HexStr((14, 28))}, functions=["pyModeS.decoder.surv.fs"],
          body_of=["pyModeS.decoder.surv.fs"])
 def surv_fs_body(msg):
     bits = F.hexbits(msg)
@@ -70,7 +70,7 @@ def surv_fs_body(msg):
         assert o == ("raise", "RuntimeError"), "fs rejects DF not in {4,5}"
 
 
-@harness("C08", inputs={"msg": HexStr((14, 28))}, functions=["pyModeS.decoder.surv.dr"],
+@harness(("C08", "C14"), inputs={"msg": HexStr((14, 28))}, functions=["pyModeS.decoder.surv.dr"],
          body_of=["pyModeS.decoder.surv.dr"])
 def surv_dr_body(msg):
     bits = F.hexbits(msg)
@@ -82,7 +82,7 @@ def surv_dr_body(msg):
         assert o == ("raise", "RuntimeError"), "dr rejects DF not in {4,5}"
 
 
-@harness("C08", inputs={"msg": HexStr((14, 28))}, functions=["pyModeS.decoder.surv.um"],
+@harness(("C08", "C14"), inputs={"msg": HexStr((14, 28))}, functions=["pyModeS.decoder.surv.um"],
          body_of=["pyModeS.decoder.surv.um"])
 def surv_um_body(msg):
     bits = F.hexbits(msg)
@@ -95,7 +95,7 @@ def surv_um_body(msg):
         assert o == ("raise", "RuntimeError"), "um rejects DF not in {4,5}"
 
 
-@harness("C08", inputs={"msg": HexStr((14, 28))}, functions=["pyModeS.decoder.allcall.capability"],
+@harness(("C08", "C14"), inputs={"msg": HexStr((14, 28))}, functions=["pyModeS.decoder.allcall.capability"],
          body_of=["pyModeS.decoder.allcall.capability"])
 def allcall_capability_body(msg):
     bits = F.hexbits(msg)
@@ -106,7 +106,7 @@ def allcall_capability_body(msg):
         assert o == ("raise", "RuntimeError"), "capability rejects DF != 11"
 
 
-@harness("C08", inputs={"data": BinStr((32, 88)), "r": IntRange(0, 16777215), "case": BinStr((14, 28))},
+@harness(("C08", "C14"), inputs={"data": BinStr((32, 88)), "r": IntRange(0, 16777215), "case": BinStr((14, 28))},
          functions=["pyModeS.decoder.allcall.interrogator"], body_of=["pyModeS.decoder.allcall.interrogator"])
 def allcall_interrogator_body(data, r, case):
     # every frame is data || PI with PI = parity(data) xor r for exactly one 24-bit r
@@ -135,7 +135,7 @@ def allcall_interrogator_roundtrip(data, cl, ic, case):
     assert ALLCALL.interrogator(msg) == want, "II<IC> for CL=0, SI<16(CL-1)+IC> for CL 1..4"
 
 
-@harness(("C08", "C13"), inputs={"msg": HexStr(28)}, functions=["pyModeS.decoder.bds.bds61.emergency_squawk"],
+@harness(("C08", "C13", "C14"), inputs={"msg": HexStr(28)}, functions=["pyModeS.decoder.bds.bds61.emergency_squawk"],
          body_of=["pyModeS.decoder.bds.bds61.emergency_squawk"])
 def emergency_squawk_body(msg):
     assert outcome(BDS61.emergency_squawk, msg) == outcome(ident_spec.emergency_squawk, msg), \
